@@ -4,7 +4,7 @@ From GV Require Export Propagate Verdict.
 Definition c18obs := (bool * ftree * nat * list (bytes * ftree * bytes * N))%type.
 
 Inductive c18case :=
-| C18 (up : uplog) (refs0 : list (bytes * ftree)) (ds : list directive) (reps : nat) (obs : list c18obs).
+| C18 (ups : list uplog) (refs0 : list (bytes * ftree)) (ds : list directive) (obs : list c18obs).
 
 Definition tsame (a b : ftree) : bool := Nat.eqb (List.length a) (List.length b) && teq a b.
 
@@ -40,7 +40,15 @@ Fixpoint all_match (ref : bytes) (rs : list pres) (os : list c18obs) : bool :=
 Definition outside_all (ds : list directive) (p : bytes) : bool :=
   forallb (fun d => negb (replaced (trim_slash (d_downpath d)) p)) ds.
 
-Definition spec_check (up : uplog) (t0 : ftree) (ds : list directive) (os : list c18obs) : nat :=
+(** do all repetitions see the same upstream log? *)
+Fixpoint same_len (ups : list uplog) : bool :=
+  match ups with
+  | a :: ((b :: _) as r) => Nat.eqb (List.length a) (List.length b) && same_len r
+  | _ => true
+  end.
+
+Definition spec_check (ups : list uplog) (t0 : ftree) (ds : list directive) (os : list c18obs) : nat :=
+  let up := hd [] ups in
   match os with
   | [] => 0
   | (e1, t1, n1, ents1) :: rest =>
@@ -60,20 +68,30 @@ Definition spec_check (up : uplog) (t0 : ftree) (ds : list directive) (os : list
       else if negb (forallb (fun en => let '(r, _, u, eid) := en in
                       existsb (fun d => beq r (d_downref d) && beq u (d_uprepo d)
                                         && match latest_unskipped up (d_upref d) with Some (i, _) => N.eqb i eid | None => false end) ds) ents1) then 3
-      (* 4. repetitions after a successful run change nothing: no commit, no entry *)
-      else if negb e1 && negb (forallb (fun o => let '(e, t, n, ents) := o in
+      (* 2b. after the last successful run each path holds what the final upstream log names *)
+      else if negb (let '(el, tl, _, _) := last os (e1, t1, n1, ents1) in
+                    el || forallb (fun d =>
+                            match latest_unskipped (last ups []) (d_upref d) with
+                            | None => true
+                            | Some (_, utree) => match up_subtree utree (d_uppath d) with
+                                                 | Some usub => tsame (subtree_at tl (trim_slash (d_downpath d))) usub
+                                                 | None => true
+                                                 end
+                            end) ds) then 2
+      (* 4. repetitions after a successful run change nothing (unchanged upstream): no commit, no entry *)
+      else if same_len ups && negb e1 && negb (forallb (fun o => let '(e, t, n, ents) := o in
                                          negb e && tsame t t1 && Nat.eqb n n1 && Nat.eqb (List.length ents) (List.length ents1)) rest) then 4
       else 0
   end.
 
 Definition c18_check (c : c18case) : verdict :=
   match c with
-  | C18 up refs0 ds reps obs =>
+  | C18 ups refs0 ds obs =>
       match refs0 with
       | [(ref, t0)] =>
-          match spec_check up t0 ds obs with
+          match spec_check ups t0 ds obs with
           | 0 =>
-              let rs := repeat_propagate reps up {| ds_refs := refs0; ds_commits := 0; ds_entries := [] |} ds in
+              let rs := repeat_propagate_ups ups {| ds_refs := refs0; ds_commits := 0; ds_entries := [] |} ds in
               if all_match ref rs obs then VOk else VMismatch 1
           | n => VSpec n
           end
